@@ -1,7 +1,57 @@
-(* C18: log routing follows the logs section.  Theorems on the Coq log model are being added (LogModel.v / LogProps.v). *)
-From Coq Require Import List.
-Require Import Merge2 Merge3.
-(* the part already available: a reload with identical content changes nothing (value part of the merge), so routes are not rebuilt needlessly *)
-Theorem identical_reload_changes_nothing : forall s t, merge (merge t s) s = merge t s.
-Proof. exact merge_idem. Qed.
-Print Assumptions identical_reload_changes_nothing.
+(* C18: log routing follows the logs section.  ONLY statements closed by `exact`, each followed by Print Assumptions.
+   LogModel.route / parse_sevset follow src/log.c (log_parse_type_sevset, log_rescan_conf, log_vmessage); the routing tables they
+   produce are compared with the files src/log.c writes on every run. *)
+From Coq Require Import List Arith Strings.Byte Strings.String.
+Import ListNotations.
+Require Import LogModel LogProps.
+Local Open Scope string_scope.
+Local Open Scope list_scope.
+
+(* every severity expression of the documentation (names, comma lists, < <= = >= > ranges and the star) is read as the set it denotes *)
+Theorem severity_expression_denotes_its_set : forall fac e, no_dot fac -> wf e ->
+  parse_sevset (fac ++ S_ "." ++ render_sexp e) = Some (fac, map (denote e) [0;1;2;3;4;5]).
+Proof. exact sevset_denote. Qed.
+Print Assumptions severity_expression_denotes_its_set.
+
+(* a message of facility fac and severity sev goes to destination d exactly when some entry of the current section maps fac (or * )
+   with a severity set containing sev to d *)
+Theorem routed_exactly_when_mapped : forall sec fac sev d,
+  In d (route sec fac sev) <->
+  exists name ds f flags,
+    In (name, ds) sec /\ parse_sevset name = Some (f, flags) /\
+    (ci_eq f fac = true \/ f = S_ "*") /\ nth sev flags false = true /\ In d ds.
+Proof. exact route_iff. Qed.
+Print Assumptions routed_exactly_when_mapped.
+
+(* the same in the vocabulary of the documentation, for sections written with documented expressions *)
+Theorem routing_follows_the_documented_meaning : forall dsec fac sev d, Forall wf_doc dsec -> (sev < 6)%nat ->
+  (In d (route (map render_entry dsec) fac sev) <->
+   exists f x ds, In (f, x, ds) dsec /\ (ci_eq f fac = true \/ f = S_ "*") /\ denote x sev = true /\ In d ds).
+Proof. exact route_documented. Qed.
+Print Assumptions routing_follows_the_documented_meaning.
+
+(* an entry with unknown syntax is ignored as a whole *)
+Theorem unknown_syntax_entry_is_ignored : forall name ds pre post fac sev,
+  parse_sevset name = None -> route (pre ++ (name, ds) :: post) fac sev = route (pre ++ post) fac sev.
+Proof. exact bad_entry_ignored. Qed.
+Print Assumptions unknown_syntax_entry_is_ignored.
+
+(* after any sequence of reloads the routing is that of the last section only *)
+Theorem routing_is_that_of_the_current_section : forall st0 secs sec fac sev,
+  route (after_reloads st0 (secs ++ [sec])) fac sev = route sec fac sev.
+Proof. exact route_depends_on_current_section_only. Qed.
+Print Assumptions routing_is_that_of_the_current_section.
+
+(* every line is complete (no LF inside) and attributed: facility and severity can be read back from it *)
+Theorem line_is_complete : forall fac sev msg, (sev < 6)%nat -> no_lf fac -> no_lf msg ->
+  no_lf (line_of fac sev msg)
+  /\ line_of fac sev msg = S_ "(" ++ fac ++ S_ ":" ++ nth sev sev_names [] ++ S_ ") " ++ msg
+  /\ In (nth sev sev_names []) sev_names.
+Proof. exact line_complete. Qed.
+Print Assumptions line_is_complete.
+
+Theorem line_is_attributed : forall fac1 sev1 msg1 fac2 sev2 msg2,
+  lacks x3a fac1 -> lacks x3a fac2 -> (sev1 < 6)%nat -> (sev2 < 6)%nat ->
+  line_of fac1 sev1 msg1 = line_of fac2 sev2 msg2 -> fac1 = fac2 /\ sev1 = sev2 /\ msg1 = msg2.
+Proof. exact line_attributed. Qed.
+Print Assumptions line_is_attributed.
